@@ -142,8 +142,67 @@ def same_value(a, b):
     return False
 
 
+_HELPER_CACHE = {}
+
+
+def checked_len_helper(prog, crate, callee):
+    """Postcondition summary of a local helper: the index k of a parameter such that every non-error result n of
+    the helper satisfies n <= remaining(parameter k) (a dominating comparison inside the helper, buffer untouched
+    between the comparison and the return). None when the helper gives no such guarantee."""
+    hid = crate + '::' + callee
+    if hid in _HELPER_CACHE:
+        return _HELPER_CACHE[hid]
+    _HELPER_CACHE[hid] = None      # recursion guard
+    h = prog.bodies.get(hid)
+    if h is None or h.kind not in ('Fn', 'AssocFn'):
+        return None
+    exits = []
+    for bi, bb in enumerate(h.bbs):
+        if bb['cleanup']:
+            continue
+        for st in bb['st']:
+            p, r = st.get('p', {}), st.get('r', {})
+            if p.get('l') != 0 or p.get('p'):
+                continue
+            if r.get('k') == 'agg' and r['kind'].endswith('Result::Err'):
+                continue
+            if r.get('k') == 'agg' and (r['kind'].endswith('Result::Ok') or r['kind'].endswith('Option::Some')) and len(r['ops']) == 1:
+                exits.append((bi, h.expr_op(r['ops'][0])))
+            elif r.get('k') in ('use', 'cast'):
+                exits.append((bi, h.expr_rvalue(r)))
+            else:
+                return None
+        t = bb['t']
+        if t['k'] == 'call' and t['dest']['l'] == 0 and not t['dest']['p']:
+            f = t['f'].get('c', {}).get('fn', {})
+            if f.get('name') != 'from_residual':
+                return None            # result produced by another call: not summarised
+    if not exits:
+        return None
+    res = None
+    for k in range(1, h.argc + 1):
+        recv = ('arg', k, h.local_name(k))
+        if all(guard_for_len(h, bi, e, recv) for bi, e in exits):
+            res = k - 1
+            break
+    _HELPER_CACHE[hid] = res
+    return res
+
+
 def guard_for_len(body, site_bb, n_expr, recv_expr):
     """is `n_expr <= len(recv)` known at site_bb through a dominating comparison?"""
+    # the amount is the (propagated) result of a local helper that only returns lengths it has checked
+    # against the remaining input of this very buffer
+    ne0 = strip_casts(n_expr)
+    if ne0[0] == 'try':
+        ne0 = strip_casts(ne0[1])
+    if ne0[0] == 'call' and len(ne0) > 3 and ne0[2]:
+        k = checked_len_helper(body.prog, body.crate, ne0[1])
+        if k is not None and k < len(ne0[2]) and nosite(strip_refs(ne0[2][k])) == nosite(strip_refs(recv_expr)) and body.dominates(ne0[3], site_bb):
+            succ = body.succs(ne0[3])
+            start = succ[0] if succ else site_bb
+            if ne0[3] == site_bb or not mutated_between(body, start, site_bb, recv_expr):
+                return ('Le', n_expr, ('call', 'remaining', (recv_expr,), ne0[3]), ne0[3])
     if is_len_of(n_expr, recv_expr) and strip_casts(n_expr)[0] == 'call' and strip_casts(n_expr)[3] == site_bb - 0:
         pass
     if is_len_of(n_expr, recv_expr):
@@ -579,6 +638,8 @@ def site_key(site):
         except Exception:
             d = ''
     d = re.sub(r'\u27ea[^\u27eb]*\u27eb', '<str>', d)
+    if 'Index<' in site.what:
+        d = re.sub(r'Adt:Range\{0, ', 'Adt:RangeTo{', d)     # s[0..n] and s[..n] are the same slice
     d = re.sub(r'\s+', ' ', d)[:200]
     return '%s|%s|%s|%s' % (site.kind, body.id, short(site.what) if site.kind != 'assert' else site.what, d)
 
@@ -600,13 +661,16 @@ def audit_bodies(rep, rule, bodies, audited, classes=('assert', 'panic', 'partia
                 r = auto_discharge_assert(s)
                 if r:
                     how = r
-            if how is None and key in audited:
-                ent = audited[key]
+            # an entry ending in '|*' covers the operation in that function whatever its operands are (used only where
+            # the recorded reason does not depend on them, e.g. "cannot panic"); still limited to `count` sites
+            tkey = key if key in audited else '|'.join(key.split('|')[:3]) + '|*'
+            if how is None and tkey in audited:
+                ent = audited[tkey]
                 reason, allowed = (ent, 1) if isinstance(ent, str) else (ent['reason'], ent.get('count', 1))
-                seen_n[key] = seen_n.get(key, 0) + 1
-                if seen_n[key] <= allowed:
+                seen_n[tkey] = seen_n.get(tkey, 0) + 1
+                if seen_n[tkey] <= allowed:
                     how = 'audited: ' + reason
-                    used.add(key)
+                    used.add(tkey)
             if how is not None:
                 rep.ok(rule, key, how, s.loc())
                 if list_all:
